@@ -562,11 +562,77 @@ func execCase(id int, tc *tcase) (out caseOut) {
 		lines = append(lines, fmt.Sprintf("obs %d text=%s", id, hx.Hex(tb.Bytes())))
 		lines = append(lines, fmt.Sprintf("obs %d csv=%s", id, hx.Hex(cb.Bytes())))
 		lines = append(lines, fmt.Sprintf("obs %d csvnr=%s", id, hx.Hex(cnb.Bytes())))
-		lines = append(lines, fmt.Sprintf("sobs %d stats1=ok stats2=ok tabs1=ok tabs2=ok same=1 viaconfig=%d", id, viaConfig(id, tc, d1)))
+		lines = append(lines, fmt.Sprintf("sobs %d stats1=ok stats2=ok tabs1=ok tabs2=ok same=1 viaconfig=%d hist=%s", id, viaConfig(id, tc, d1), history(id, tc, d1)))
 	}()
 	return caseOut{lines: lines, crashed: crashed}
 }
 
+
+
+// history: stateful-API / aliasing family, judged on the implementation alone (the spec line
+// demands hist=ok).  d1 is the dump of a fresh collection that got all data before its first Tables().
+//   incremental: one config added at a time with a Tables() call after each addition — the final
+//                dump (values in input order, retained values, statistics, tables) equals d1;
+//   options:     Order/AddGeoMean/Alpha/DeltaTest changed, Tables(), restored, Tables() — equals d1;
+//   render:      text, CSV, HTML, text on one result vs CSV, HTML, text on a fresh one — same bytes,
+//                and the collection dumps the same afterwards.
+func history(id int, tc *tcase, d1 []string) string {
+	same := func(a, b []string) bool {
+		if len(a) != len(b) {
+			return false
+		}
+		for i := range a {
+			if a[i] != b[i] {
+				return false
+			}
+		}
+		return true
+	}
+	byCfg := make([][]*benchfmt.Result, len(tc.cfgs))
+	for _, r := range tc.results {
+		byCfg[r.cfg] = append(byCfg[r.cfg], &benchfmt.Result{Content: r.content,
+			NameLabels: benchfmt.Labels(r.nl), Labels: benchfmt.Labels(r.lb)})
+	}
+	c := &benchstat.Collection{Alpha: tc.alpha, AddGeoMean: tc.geo, SplitBy: tc.split,
+		DeltaTest: tc.deltaTest(), Order: mkOrder(tc.order)}
+	for i, name := range tc.cfgs {
+		c.AddResults(name, byCfg[i])
+		c.Tables()
+	}
+	if !same(dump(id, 1, c, c.Tables()), d1) {
+		return "incremental"
+	}
+	c.Order, c.AddGeoMean, c.Alpha, c.DeltaTest = benchstat.Reverse(benchstat.ByDelta), !tc.geo, 0.9, guard(benchstat.TTest)
+	c3 := tc.collection()
+	c3.Order, c3.AddGeoMean, c3.Alpha, c3.DeltaTest = benchstat.Reverse(benchstat.ByDelta), !tc.geo, 0.9, guard(benchstat.TTest)
+	if !same(dump(id, 1, c, c.Tables()), dump(id, 1, c3, c3.Tables())) { // the changed options take effect as on a fresh collection
+		return "options-changed"
+	}
+	c.Order, c.AddGeoMean, c.Alpha, c.DeltaTest = mkOrder(tc.order), tc.geo, tc.alpha, tc.deltaTest()
+	if !same(dump(id, 1, c, c.Tables()), d1) {
+		return "options"
+	}
+	t := c.Tables()
+	var ta, ca, ha, tb bytes.Buffer
+	benchstat.FormatText(&ta, t)
+	benchstat.FormatCSV(&ca, t, false)
+	benchstat.FormatHTML(&ha, t)
+	benchstat.FormatText(&tb, t)
+	c2 := tc.collection()
+	t2 := c2.Tables()
+	var t2b, c2b, h2b bytes.Buffer
+	benchstat.FormatCSV(&c2b, t2, false)
+	benchstat.FormatHTML(&h2b, t2)
+	benchstat.FormatText(&t2b, t2)
+	if !bytes.Equal(ta.Bytes(), tb.Bytes()) || !bytes.Equal(ta.Bytes(), t2b.Bytes()) ||
+		!bytes.Equal(ca.Bytes(), c2b.Bytes()) || !bytes.Equal(ha.Bytes(), h2b.Bytes()) {
+		return "render"
+	}
+	if !same(dump(id, 1, c, c.Tables()), d1) {
+		return "render-state"
+	}
+	return "ok"
+}
 
 // viaConfig feeds the same lines through Collection.AddConfig (the benchfmt reader path) and reports
 // whether Tables() gives the same dump as through AddResults.  Applicable when no result carries labels
@@ -589,7 +655,13 @@ func viaConfig(id int, tc *tcase, d1 []string) int {
 				sb.WriteString("\n")
 			}
 		}
-		c.AddConfig(name, []byte(sb.String()))
+		data := []byte(sb.String())
+		keep := append([]byte(nil), data...)
+		c.AddConfig(name, data)
+		c.Tables()
+		if !bytes.Equal(data, keep) { // in=kept: the caller's buffer is neither retained nor modified
+			return 0
+		}
 	}
 	d := dump(id, 1, c, c.Tables())
 	if len(d) != len(d1) {
